@@ -16,6 +16,8 @@ import (
 	"testing"
 	"testing/synctest"
 
+	"github.com/corestario/kyber/encrypt/ecies"
+	"github.com/corestario/kyber/pairing/bls12381"
 	"github.com/syndtr/goleveldb/leveldb"
 	"pgregory.net/rapid"
 
@@ -377,6 +379,41 @@ type c18Op struct {
 	At    int    `json:"at"` // machine state: the state before operation (op+at) of the trace
 	// Inner, if set, replaces Muts: one or two mutations of the JSON document inside the operation's payload
 	Inner []jMut `json:"inner,omitempty"`
+	// Deal = k > 0 (responses operations only): one deal of the payload is replaced by an altered plaintext deal that is
+	// correctly encrypted to this machine (any participant can do that: the machine's DKG key is public); Entry picks the deal
+	Deal  int `json:"deal,omitempty"`
+	Entry int `json:"entry,omitempty"`
+}
+
+// c18DealPlaintexts: what a hostile dealer may put inside the encryption
+func c18DealPlaintext(k, n int) []byte {
+	body := `"Deal":{"DHKey":"AA==","Signature":"AA==","Nonce":"AA==","Cipher":"AA=="},"Signature":"AAAA"`
+	switch k % 10 {
+	case 0:
+		return []byte(`{"Index":1000,` + body + `}`)
+	case 1:
+		return []byte(`{"Index":4294967295,` + body + `}`)
+	case 2:
+		return []byte(fmt.Sprintf(`{"Index":%d,%s}`, n, body))
+	case 3:
+		return []byte(`null`)
+	case 4:
+		return []byte(`{}`)
+	case 5:
+		return []byte(`{"Index":0,"Deal":null,"Signature":null}`)
+	case 6:
+		return []byte(`[]`)
+	case 7:
+		return []byte(`{"Index":-1,` + body + `}`)
+	case 8:
+		return []byte(`{"Index":1,"Deal":{"DHKey":null,"Signature":null,"Nonce":null,"Cipher":null},"Signature":""}`)
+	}
+	return []byte(`"deal"`)
+}
+
+func c18GenOpDeal(rt *rapid.T) c18Op {
+	nt := rapid.SampledFrom([][2]int{{2, 2}, {3, 2}, {4, 3}}).Draw(rt, "nt")
+	return c18Op{Trace: "honest", N: nt[0], T: nt[1], Op: -1, At: 0, Deal: 1 + rapid.IntRange(0, 9).Draw(rt, "plaintext"), Entry: rapid.IntRange(0, 8).Draw(rt, "entry")}
 }
 
 func c18GenOp(rt *rapid.T) c18Op {
@@ -418,6 +455,15 @@ func c18RunOp(t *testing.T, st *vstat.Stats, p c18Op) (v *viol) {
 	for _, r := range tr.Ops {
 		if r.MachDir != "" {
 			recs = append(recs, r)
+		}
+	}
+	if p.Deal > 0 {
+		// the responses operation of the trace, on the machine state right before it
+		p.Op = 0
+		for i, r := range recs {
+			if r.Type == "state_dkg_responses_await_confirmations" {
+				p.Op = i
+			}
 		}
 	}
 	src := recs[p.Op%len(recs)]
@@ -462,6 +508,24 @@ func c18RunOp(t *testing.T, st *vstat.Stats, p c18Op) (v *viol) {
 		if err := m.M.ReplayOperationsLog(tr.Round); err != nil && !strings.Contains(err.Error(), "operation log not found") {
 			v = violf("harness", "replay: %v", err)
 			return
+		}
+		if p.Deal > 0 {
+			var o types.Operation
+			var entries []map[string]any
+			if json.Unmarshal(src.OpFile, &o) != nil || json.Unmarshal(o.Payload, &entries) != nil || len(entries) == 0 {
+				v = violf("harness", "responses operation of the trace does not decode")
+				return
+			}
+			suite := bls12381.NewBLS12381Suite(nil)
+			ct, eerr := ecies.Encrypt(suite, m.M.GetPubKey(), c18DealPlaintext(p.Deal-1, p.N), suite.Hash)
+			if eerr != nil {
+				v = violf("harness", "encrypt: %v", eerr)
+				return
+			}
+			entries[p.Entry%len(entries)]["DkgDeal"] = ct
+			o.Payload, _ = json.Marshal(entries)
+			file, _ = json.Marshal(o)
+			applied = []string{fmt.Sprintf("deal %d replaced by an encryption of %s", p.Entry%len(entries), clip(string(c18DealPlaintext(p.Deal-1, p.N)), 60))}
 		}
 		var op types.Operation
 		uerr := json.Unmarshal(file, &op)
@@ -724,6 +788,7 @@ func TestC18(t *testing.T) {
 	rapidProp(t, st, "poisoned-continuation", perShard(pick(6400, 300000)), 4, c18GenGentle, func(p c18Msg) *viol { return c18RunMsg(t, st, p) })
 	rapidProp(t, st, "operations", perShard(pick(1600, 60000)), 2, c18GenOp, func(p c18Op) *viol { return c18RunOp(t, st, p) })
 	rapidProp(t, st, "operation-payloads", perShard(pick(2400, 80000)), 6, c18GenOpInner, func(p c18Op) *viol { return c18RunOp(t, st, p) })
+	rapidProp(t, st, "encrypted-deals", perShard(pick(160, 4000)), 8, c18GenOpDeal, func(p c18Op) *viol { return c18RunOp(t, st, p) })
 	rapidProp(t, st, "api", perShard(pick(2400, 100000)), 3, c18GenAPI, func(p c18API) *viol { return c18RunAPI(t, st, p) })
 	rapidProp(t, st, "range-bounds", perShard(pick(1600, 40000)), 5, c18GenRange, func(p c18Range) *viol { return c18RunRange(t, st, p) })
 }
